@@ -10,6 +10,11 @@ use crate::sgen::Repr;
 
 pub struct C06;
 
+const HAND: [&str; 2] = [
+    "alias Color = vec4<f32>;\nalias Transform = mat4x4<f32>;\nalias Weights = array<f32, 4>;\nalias Index = u32;\nstruct Inner { tint: Color }\nalias InnerAlias = Inner;\nstruct Material { base: Color, layers: array<Color, 2>, model: Transform, weights: Weights, id: Index, inner: InnerAlias, plain: vec3<f32> }\n@group(0) @binding(0) var<storage, read> material: Material;\n@compute @workgroup_size(1)\nfn main() { var x = material.base + material.inner.tint; }\n",
+    "alias Uv = vec2<f32>;\nalias Pos = vec3<f32>;\nstruct VIn { @location(0) position: Pos, @location(1) uv: Uv, @location(2) extra: vec2<u32> }\n@vertex\nfn vs_main(v: VIn) -> @builtin(position) vec4<f32> { return vec4<f32>(v.position, v.uv.x); }\n",
+];
+
 /// (name, type text, is runtime tail) of the non-builtin members, from naga
 fn expected_fields(m: &naga::Module, h: naga::Handle<naga::Type>, r: Repr) -> Option<Vec<(String, String, bool)>> {
     let naga::TypeInner::Struct { members, .. } = &m.types[h].inner else { return None };
@@ -58,6 +63,14 @@ impl Property for C06 {
                 }
             }
             out.push(Case::new(format!("world{i}/{mvt:?}"), w.wgsl, Params::with_opts(opts)));
+        }
+        // hand-written shapes (round 8 seeds): member types spelled through `alias` - naga gives the aliased vector / matrix /
+        // array / scalar type a NAME, which is not the name of any emitted struct
+        for (k, src) in HAND.iter().enumerate() {
+            for mvt in [MatrixVectorTypes::Rust, MatrixVectorTypes::Glam, MatrixVectorTypes::Nalgebra] {
+                let opts = WriteOptions { matrix_vector_types: mvt, ..Default::default() };
+                out.push(Case::new(format!("hand{k}/{mvt:?}"), src.to_string(), Params::with_opts(opts)));
+            }
         }
         out
     }
